@@ -248,6 +248,11 @@ func (hash *SexpHash) HashGetDefault(env *Zlisp, key Sexp, defaultval Sexp) (Sex
 	}
 
 	for _, pair := range arr {
+		if pair.Head == key {
+			// the very key object (as when walking KeyOrder): found, even
+			// if it is of a kind that cannot be compared (a function)
+			return pair.Tail, nil
+		}
 		res, err := env.Compare(pair.Head, key)
 		if err == nil && res == 0 {
 			return pair.Tail, nil
